@@ -18,7 +18,7 @@ CONSTANTS
   Orchs = {"o1", "o2", "o3", "v2"}
   Exts = {"e1", "e2", "e3"}
   KeyChains = {"ethereum", "minter"}
-  KeyVariants = {"good", "wrongtx", "wrongkey", "stale", "wrongval", "tool", "toolstale"}
+  KeyVariants = {"good", "wrongtx", "wrongkey", "stale", "wrongval", "tool", "toolstale", "nonval"}
   DepAmts = {40}
   DepFees = {0, 2}
   WithKeysAndPrices = FALSE
